@@ -61,6 +61,7 @@ TRANSLATION TABLE (Python → Lean)
                                         break: F (fuel+1) vars = body, the unreachable rest is dropped)
   heappush(xs, e)                       let xs := Mesa.Heap.heappush lt xs e        lt = the translated `__lt__` (registry `order`)
   x = heappop(xs)                       match Mesa.Heap.heappop lt xs with | none => .error Py.Err.Index | some (x, xs) => …
+  nsmallest(n, xs)                      (Py.nsmallest lt n.toNat xs): the first n of the stable sort by the translated `__lt__`
   obj.PROP (registry props)             (PROP obj): call of the translated property getter;  len(obj) → (len_ obj) if `__len__` is translated
   record given as `extern`              the hand-written model's structure; attributes map to its fields as the registry says
 NOT in the subset: floats, strings (except in `raise`), dict values, sets, slices, list indexing, nested defs, lambda,
@@ -435,6 +436,8 @@ class Translator:
         if f == "range" and tys in (["Int"], ["Int", "Int"]):
             lo, hi = ("0", vals[0][0]) if len(vals) == 1 else (vals[0][0], vals[1][0])
             return f"(Py.range {lo} {hi})", ("L", "Int")
+        if f in ("nsmallest", "heapq.nsmallest") and len(vals) == 2 and tys[0] == "Int" and tys[1] and tys[1][0] == "L" and self.fn.order:
+            return f"(Py.nsmallest {self.fn.order} {vals[0][0]}.toNat {vals[1][0]})", tys[1]
         if f == "zip" and len(vals) == 2 and all(t and t[0] == "L" for t in tys):
             return f"(List.zip {vals[0][0]} {vals[1][0]})", ("L", ("T", tys[0][1], tys[1][1]))
         if f and f.endswith(".get") and len(vals) == 2 and isinstance(args[1], ast.Constant) and args[1].value is None:
